@@ -36,7 +36,7 @@ class Mode:
 
     def __init__(self, name, tocks=True, rets=True, raises=False, kbd=False, enterfail=False,
                  enterdone=False, ext=(), rem=(), kinds=(0, 1, 2, 3, 4), cfg=True, horizon=3,
-                 limits=(None, 2.0, 2.5, 0.3), always=False, stale_done=False, xtocks=False, callcfg=False):
+                 limits=(None, 2.0, 2.5, 0.3), always=False, stale_done=False, xtocks=False, callcfg=False, tockset=(), handdrive=False):
         self.name = name
         self.tocks, self.rets, self.raises, self.kbd = tocks, rets, raises, kbd
         self.enterfail, self.enterdone = enterfail, enterdone
@@ -46,20 +46,22 @@ class Mode:
         self.stale_done = stale_done
         self.xtocks = xtocks
         self.callcfg = callcfg     # limit and start tyme may be given to do()/ado() instead of the constructor
+        self.tockset = tuple(tockset)   # with tocks=False: the only yielded tocks offered (multiples of T), e.g. "not due at the stop"
+        self.handdrive = handdrive      # the run may be driven by hand: enter(doers=) / recur(deeds=) / exit(deeds=) on an explicit deque
 
 
 MODES = {
-    "C01": Mode("C01", raises=True, kbd=True, enterfail=True, enterdone=True,
+    "C01": Mode("C01", raises=True, kbd=True, enterfail=True, enterdone=True, handdrive=True,
                 ext=("fresh", "failing", "uncle"), rem=("self", "prev", "next", "far", "uncle"), always=True),
-    "C02": Mode("C02", tocks=False, rets=True, raises=True, enterfail=True,
-                ext=("fresh", "failing", "two", "uncle"), rem=("prev", "next", "parent", "far", "uncle"), always=True,
+    "C02": Mode("C02", tocks=False, rets=True, raises=True, enterfail=True, tockset=(2.0,), handdrive=True,
+                ext=("fresh", "failing", "two", "uncle"), rem=("prev", "next", "parent", "far", "alias", "uncle"), always=True,
                 limits=(None, 2.0, 1.0)),
     "C03": Mode("C03", horizon=4, limits=(None, 2.5), xtocks=True),
     "C04": Mode("C04", raises=True, horizon=3, limits=(None, 2.0, 2.5)),
     "C05": Mode("C05", raises=True, enterdone=True, always=True, stale_done=True, limits=(None, 2.0, 2.5, 0.3, 1.0, 3.0),
                 ext=("uncle",), callcfg=True),
     "C06": Mode("C06", tocks=True, rets=True, enterdone=True, ext=("fresh", "present", "dup", "done"),
-                rem=("self", "prev", "next", "far", "dupnext", "done", "absent"), always=True, kinds=(0, 2, 4),
+                rem=("self", "prev", "next", "far", "alias", "dupnext", "done", "absent"), always=True, kinds=(0, 2, 4),
                 limits=(None, 3.0, 2.0)),
     "C30": Mode("C30", raises=True, enterdone=True, limits=(None, 2.0, 2.5)),
 }
@@ -116,6 +118,9 @@ class World:
                 if t is None and kind == 0:
                     continue
                 a.append(("y", t))
+        elif m.tockset and not last:
+            for mult in m.tockset:
+                a.append(("y", mult * T))
         if m.rets:
             if not last:
                 a.append(("ret", True))
@@ -241,6 +246,8 @@ class World:
             names = [sibs[i - 1]] if i > 0 else []
         elif what == "next":
             names = [sibs[i + 1]] if i + 1 < len(sibs) else []
+        elif what == "alias":         # the scheduler's own .doers list object as the argument: everybody is removed
+            names = [name_of(x) for x in owner.doers]
         elif what == "far":           # the sibling farthest away (kept siblings lie between the caller and the removed one)
             names = [sibs[-1] if (len(sibs) - 1 - i) >= i else sibs[0]]
         elif what == "uncle":         # reach into a sibling DoDoer (not mid-pass) and remove its second child (first if single)
@@ -267,6 +274,8 @@ class World:
         else:
             raise AssertionError(what)
         arg = [fresh_ref(self.nodes[n].doer) for n in names]
+        if what == "alias":
+            arg = owner.doers         # not a copy
         rec = dict(op="remove", by=leaf.name, owner=pn, what=what, args=names, cross=(what == "uncle"),
                    before=[name_of(x) for x in owner.doers], t0=len(self.trace), cycle=self.cycle)
         self.calls.append(rec)
@@ -556,7 +565,7 @@ def build(w, shape, kinds=None, parent=""):
 
 
 SWEEP_TOCKS = [1.0, 0.25, 0.1, 0.03125, 0.3]
-SWEEP_STARTS = [0.0, 2.5, 0.2, 0.7]
+SWEEP_STARTS = [0.0, 2.5, 0.2, 0.7, -1.0]      # negative: a due tyme can land exactly on 0.0
 SWEEP_LIMITS = [None, 2.0, 2.5, 0.3, 0.5, 1.0, 3.0, 0.7]   # absolute seconds when "abs" below
 
 
@@ -579,7 +588,7 @@ def config(w, ch, shape, sweep=False):
         if shape_has_always(shape):
             lims = [x for x in lims if x is not None] or [2.0]
         lim = ch.pick(lims, "cfg:limit")
-        via = ch.pick(["ctor", "call"], "cfg:via") if m.callcfg else "ctor"
+        via = ch.pick(["ctor", "call"], "cfg:via") if m.callcfg else (ch.pick(["ctor", "hand"], "cfg:via") if m.handdrive else "ctor")
     else:
         T, start, lim = 1.0, 0.0, (2.0 if shape_has_always(shape) else None)
         via = "ctor"
@@ -629,7 +638,10 @@ def run(job, ch, mode=None, table=None, cfg=None, kinds=None, runner=None):
         runner(w)
     else:
         try:
-            d.do(**w.call_kwargs)
+            if via == "hand":
+                hand_drive(w, d, doers, lim)
+            else:
+                d.do(**w.call_kwargs)
             w.log("#", "do_return")
             w.end = len(w.trace)  # events after this index happened after do() returned/raised
             w.result = "return"
@@ -647,6 +659,26 @@ def run(job, ch, mode=None, table=None, cfg=None, kinds=None, runner=None):
     w.dones = {n: (node.doer.done if node is not None else None) for n, node in w.nodes.items()}
     w.doers_after = [name_of(x) for x in d.doers]
     return w
+
+
+def hand_drive(w, d, doers, lim):
+    """what Doist.do does, spelled out by the caller on an explicit deque (the parameterised enter/recur/exit entry points)"""
+    from hio.base import tyming
+    deeds = d.deeds = deque()     # the scheduler's own deque, passed explicitly (extend() and a failing enter need it to be .deeds)
+    try:
+        d.enter()
+        tymer = tyming.Tymer(tymth=d.tymen(), duration=lim) if lim else None
+        while True:
+            d.recur(deeds=deeds)
+            if not deeds:
+                d.done = True
+                break
+            if tymer is not None and tymer.expired:
+                break
+    finally:
+        w.log("", "exit_begin")
+        d.exit(deeds=deeds)
+        w.log("", "exit")
 
 
 # ---------------------------------------------------------------------------
